@@ -124,7 +124,7 @@ def run(rep, tier, seed, replay):
     if replay:
         import json
         rc = json.load(open(replay))["case"]
-        if isinstance(rc, str) and rc.split()[0] in ("R", "W", "T"):
+        if isinstance(rc, str) and rc.split()[0] in ("R", "W", "T", "RI"):
             sm_replay = rc
         cases = [] if sm_replay is not None else [rc]
         stats = {"replay": 1}
